@@ -3,6 +3,8 @@ package q2lib
 import (
 	"regexp/syntax"
 	"strings"
+
+	"verifharness/gen"
 )
 
 // AtomShapes names, per tree, the atom shapes on which the parser's case:auto decision and keyword recognition
@@ -79,4 +81,59 @@ func keywordLookalike(t string) bool {
 		}
 	}
 	return false
+}
+
+// BlankVariants: copies of the tree in which one atom value that contains a blank (necessarily quoted, or escaped)
+// has that run of blanks changed: " " → "  ", "  "/"   " → " ", " " → "\t". Queries that differ only there are
+// different queries (a quoted value is a regexp over the exact bytes); a parser with any memory keyed on a
+// blank-normalised form confuses them. Returns nothing when the tree has no such value.
+func BlankVariants(r *gen.Rand, q Qy) []Qy {
+	var idx []int
+	n := 0
+	q.Atoms(func(e *E) {
+		if strings.ContainsAny(e.Text, " \t") && (e.Quoted || !Unquotable(e.Field, e.Text)) {
+			switch e.Field {
+			case "text", "regex", "content", "file", "sym":
+				idx = append(idx, n)
+			}
+		}
+		n++
+	})
+	if len(idx) == 0 {
+		return nil
+	}
+	target := idx[r.Intn(len(idx))]
+	var out []Qy
+	for _, mode := range []int{0, 1} {
+		k := 0
+		changed := false
+		v := mapAtoms(q, func(e *E) *E {
+			defer func() { k++ }()
+			if k != target {
+				return e
+			}
+			c := *e
+			t := e.Text
+			switch {
+			case mode == 0 && strings.Contains(t, "  "):
+				t = strings.Replace(t, "  ", " ", 1)
+			case mode == 0:
+				t = strings.Replace(t, " ", "  ", 1)
+			case strings.Contains(t, "\t"):
+				t = strings.Replace(t, "\t", " ", 1)
+			default:
+				t = strings.Replace(t, " ", "\t", 1)
+			}
+			if t != e.Text {
+				changed = true
+			}
+			c.Text = t
+			c.Quoted = true
+			return &c
+		})
+		if changed {
+			out = append(out, v)
+		}
+	}
+	return out
 }
